@@ -144,9 +144,23 @@ pub fn rl_builder_kinds(steps: usize, bound: usize, convert: bool, kinds: &[bool
         else {
             let (ls, ll) = (m.s[m.r - 1], m.l[m.r - 1]);
             if rl > 0 { assert!(rs == ls && rl == ll && tail <= rs && (m.r < 2 || tail == m.s[m.r - 2] + m.l[m.r - 2])); }
-            else { assert!(tail == ls + ll); }
+            else {
+                assert!(tail == ls + ll);
+                // the pending run may only have been closed by a set_len() that grew the vector: while the
+                // last run ends at the current length it must stay open, or an adjacent run accepted next
+                // could not be merged with it (set_len(n <= len) is documented to have no effect)
+                assert!(m.len > ls + ll);
+            }
         }
         k += 1;
+    }
+    // native replay only: make a closed-too-early pending run visible through the public API by
+    // appending one adjacent bit, which must extend the last run (the solver decides on the
+    // invariant above; this is how its counterexample is demonstrated on the real code)
+    if cfg!(not(kani)) && m.r > 0 && m.len == m.s[m.r - 1] + m.l[m.r - 1] && m.len < usize::MAX {
+        let res = b.try_set(m.len, 1);
+        assert!(res.is_ok());
+        m.l[m.r - 1] += 1; m.len += 1; m.ones += 1;
     }
     if convert || cfg!(not(kani)) {
         // the converted vector holds exactly the accepted (merged) runs: compared through the run
